@@ -407,3 +407,165 @@ def diff_views(iv, mv):
         if 'px' in iv['low'] and canon_px(iv['low']['px']) != canon_px(mv['low']['px']):
             return ('low.px', str(canon_px(iv['low']['px']))[:80], str(canon_px(mv['low']['px']))[:80])
     return None
+
+
+# ------------------------------------------------------------------ histories on one live object
+
+def gen_history(rng, spec, V):
+    """A random sequence of operations on the object built from `spec`, ending with a save."""
+    v = V.VTF(spec['w'], spec['h'], version=(7, spec['minor']), frames=spec['frames'], flags=V.VTFFlags(spec['flags']),
+              depth=spec['depth'])
+    keys = [key_val(k) for k in v._frames]
+    dims = {key_val(k): (f.width, f.height) for k, f in v._frames.items()}
+    ops = []
+    n = rng.choice([2, 3, 4, 5, 6, 8])
+    for i in range(n):
+        c = rng.random()
+        k = list(rng.choice(keys))
+        w, h = dims[tuple(k)]
+        if c < 0.22:
+            ops.append(['save', rng.choice([None, None, None, 2, 3, 4, 5]), spec['sheetver'], spec['asw']])
+        elif c < 0.32:
+            ops.append(['compute', rng.choice([0, 1, 2, 3, 4, 4])])
+        elif c < 0.40:
+            ops.append(['clearmips', rng.choice([0, 0, 1, 2])])
+        elif c < 0.60:
+            ops.append(['fclear'] + k)
+        elif c < 0.72:
+            ops.append(['set'] + k + [rng.getrandbits(32)])
+        elif c < 0.82:
+            ops.append(['pixel'] + k + [rng.randrange(-1, w + 1), rng.randrange(-1, h + 1), [rng.randrange(256) for _ in range(4)]])
+        elif c < 0.88:
+            ops.append(['fill'] + k + [[rng.randrange(256) for _ in range(4)]])
+        elif c < 0.92:
+            ops.append(['load'])
+        elif c < 0.97:
+            ops.append(['fmt', rng.choice(spec['_names'])])
+        else:
+            ops.append(['lowfmt', rng.choice(spec['_names'] + ['NONE'])])
+    ops.append(['save', None, spec['sheetver'], spec['asw']])
+    return ops
+
+
+def history_model_ops(V, spec, ops, dims):
+    """The same operations in the driver's encoding."""
+    F = V.ImageFormats
+    out = []
+    for op in ops:
+        t = op[0]
+        if t == 'save':
+            out.append({'o': 3, 'a': [spec['minor'] if op[1] is None else op[1], op[2], 1 if op[3] else 0]})
+        elif t == 'compute': out.append({'o': 1, 'a': [op[1]]})
+        elif t == 'clearmips': out.append({'o': 0, 'a': [op[1]]})
+        elif t == 'fclear': out.append({'o': 4, 'a': op[1:4]})
+        elif t == 'set':
+            w, h = dims[tuple(op[1:4])]
+            out.append({'o': 5, 'a': op[1:4], 'd': set_data(op[4], w, h)})
+        elif t == 'pixel': out.append({'o': 6, 'a': op[1:4] + [op[4], op[5]], 'd': op[6]})
+        elif t == 'fill': out.append({'o': 7, 'a': op[1:4], 'd': op[4]})
+        elif t == 'load': out.append({'o': 2})
+        elif t == 'fmt': out.append({'o': 8, 'a': [F[op[1]].ind]})
+        elif t == 'lowfmt': out.append({'o': 9, 'a': [F[op[1]].ind]})
+    return out
+
+
+def set_data(seed, w, h):
+    r = random.Random(f'set:{seed}')
+    return [r.randrange(256) for _ in range(4 * w * h)]
+
+
+def _favg(px, w, h, nw, nh):
+    sx, sy = (2 if nw != w else 1), (2 if nh != h else 1)
+    out = []
+    for y in range(nh):
+        for x in range(nw):
+            for c in range(4):
+                s = 0
+                for dy in range(2):
+                    for dx in range(2):
+                        s += px[4 * ((y * sy + (dy if sy == 2 else 0)) * w + x * sx + (dx if sx == 2 else 0)) + c]
+                out.append(s // 4)
+    return out
+
+
+def run_history_impl(V, spec, ops):
+    """Apply the history to one live object. Returns (saves, problems): `saves` = bytes or ('err', name) per save
+    (stops at the first exception); `problems` = direct-oracle failures found after a save:
+      * a frame that was cleared (Frame.clear / clear_mipmaps) when save() ran is not the floor average of its parent,
+      * the file read back does not hold what the live object holds (up to the format's quantisation)."""
+    F = V.ImageFormats
+    v, mj = build(V, spec)
+    frames = {key_val(k): f for k, f in v._frames.items()}
+    cleared = {k for k, f in frames.items() if f._data is None and k[2] > 0}
+    saves, problems = [], []
+    for step, op in enumerate(ops):
+        t = op[0]
+        try:
+            if t == 'save':
+                b = BytesIO()
+                was_cleared = set(cleared)
+                v.save(b, version=None if op[1] is None else (7, op[1]), sheet_seq_version=op[2], asw_or_later=op[3])
+                data = b.getvalue()
+                saves.append(data)
+                cleared.clear()
+                # oracle 1: regenerated levels are floor averages of their (live) parent
+                for k in sorted(was_cleared):
+                    if k[2] >= v.mipmap_count or k[0] >= v.frame_count:
+                        continue
+                    par = frames.get((k[0], k[1], k[2] - 1)); cur = frames[k]
+                    if par is None or par._data is None or cur._data is None:
+                        continue
+                    want = _favg(list(par._data), par.width, par.height, cur.width, cur.height)
+                    if list(cur._data) != want:
+                        problems.append((step, f'after save #{len(saves)}, mipmap {k} that was cleared is not the floor average of '
+                                         f'its parent: {list(cur._data)[:8]} instead of {want[:8]}'))
+                        break
+                # oracle 2: what is read back is what the object holds
+                iv = impl_view(V, data)
+                if 'err' in iv:
+                    problems.append((step, f'the file of save #{len(saves)} cannot be read: {iv["err"]}'))
+                else:
+                    nm = v.format.name
+                    for fr in iv['frames']:
+                        live = frames.get(tuple(fr['key']))
+                        if live is None or live._data is None or isinstance(fr['px'], dict):
+                            continue
+                        if nm in ('RGB565', 'BGR565'):
+                            continue
+                        if fr['px'] != quant_img(nm, list(live._data)):
+                            problems.append((step, f'save #{len(saves)}: frame {fr["key"]} read back differs from the live frame'))
+                            break
+            elif t == 'compute':
+                v.compute_mipmaps(V.FilterMode(op[1]))
+                cleared -= {k for k in cleared if k[2] < v.mipmap_count}
+            elif t == 'clearmips':
+                v.clear_mipmaps(after=op[1])
+                cleared |= {k for k in frames if k[2] > op[1]}
+            elif t == 'fclear':
+                frames[tuple(op[1:4])].clear()
+                if op[3] > 0:
+                    cleared.add(tuple(op[1:4]))
+            elif t == 'set':
+                fr = frames[tuple(op[1:4])]
+                fr.copy_from(bytes(set_data(op[4], fr.width, fr.height)))
+                cleared.discard(tuple(op[1:4]))
+            elif t == 'pixel':
+                try:
+                    frames[tuple(op[1:4])][op[4], op[5]] = tuple(op[6])
+                except IndexError:
+                    pass
+                cleared.discard(tuple(op[1:4]))
+            elif t == 'fill':
+                frames[tuple(op[1:4])].fill(*op[4])
+                cleared.discard(tuple(op[1:4]))
+            elif t == 'load':
+                v.load()
+                cleared.clear()
+            elif t == 'fmt':
+                v.format = F[op[1]]
+            elif t == 'lowfmt':
+                v.low_format = F[op[1]]
+        except Exception as e:  # noqa
+            saves.append(('err', type(e).__name__))
+            break
+    return saves, problems, mj
